@@ -44,7 +44,7 @@ def main():
             demo_dst = os.path.join(demo_dst, os.path.basename(meta["demo_file"]))
         os.makedirs(os.path.dirname(demo_dst), exist_ok=True)
         shutil.copy(demo_src, demo_dst)
-        cmd = meta["demo_cmd"].replace("/tmp/seed/R7" + prop, wt).replace("/tmp/seed/R6" + prop, wt).replace("/tmp/seed/R5" + prop, wt).replace("/tmp/seed/R4" + prop, wt).replace("/tmp/seed/R3" + prop, wt).replace("/tmp/seed/R2" + prop, wt).replace("/tmp/seed/" + prop, wt)
+        cmd = meta["demo_cmd"].replace("/tmp/seed/R8" + prop, wt).replace("/tmp/seed/R7" + prop, wt).replace("/tmp/seed/R6" + prop, wt).replace("/tmp/seed/R5" + prop, wt).replace("/tmp/seed/R4" + prop, wt).replace("/tmp/seed/R3" + prop, wt).replace("/tmp/seed/R2" + prop, wt).replace("/tmp/seed/" + prop, wt)
         r = run(["bash", "-c", cmd], cwd=wt, env=ENV)
         log.append("demo on unchanged tree: exit %d" % r.returncode)
         if r.returncode != 0:
